@@ -158,4 +158,92 @@ example : Isometry (fun v : V3 ℝ => (⟨-v.y, v.x, v.z⟩ : V3 ℝ)) := by
   · intro k a; simp [V3.smul]
   · intro a b; simp [V3.dot]; ring
 
+/-! ## inertia, inertiaZ, distanceInv, coordNum: the same symmetries -/
+
+private theorem cog_translate (g : AGroup ℝ) (v : V3 ℝ) (hg : g ≠ []) : cog (translate g v) = V3.add (cog g) v := by
+  have hn : (g.length : ℝ) ≠ 0 := by
+    have : g.length ≠ 0 := by simpa using hg
+    exact_mod_cast this
+  rw [cog_eq, cog_eq]
+  unfold translate
+  simp only [List.map_map, Function.comp_def, add_x, add_y, add_z, List.length_map]
+  rw [sum_map_add_const g (fun a => a.r.x), sum_map_add_const g (fun a => a.r.y),
+    sum_map_add_const g (fun a => a.r.z)]
+  apply V3.ext <;> simp only [add_x, add_y, add_z] <;> field_simp
+
+private theorem cog_perm (g g' : AGroup ℝ) (h : g.Perm g') : cog g = cog g' := by
+  rw [cog_eq, cog_eq, h.length_eq, (h.map (fun a => a.r.x)).sum_eq, (h.map (fun a => a.r.y)).sum_eq,
+    (h.map (fun a => a.r.z)).sum_eq]
+
+theorem inertia_is_sum (g : AGroup ℝ) : inertia g = (g.map fun a => V3.norm2 (V3.sub a.r (cog g))).sum := by
+  exact inertia_eq g
+
+theorem inertia_translation (g : AGroup ℝ) (v : V3 ℝ) (hg : g ≠ []) : inertia (translate g v) = inertia g := by
+  rw [inertia_eq, inertia_eq, cog_translate g v hg]
+  unfold translate
+  simp only [List.map_map, Function.comp_def, sub_add_add]
+
+theorem inertia_rotation (R : V3 ℝ → V3 ℝ) (hR : Isometry R) (g : AGroup ℝ) : inertia (transform R g) = inertia g := by
+  have hc : cog (transform R g) = R (cog g) := cog_map_R R hR.add hR.smul g
+  rw [inertia_eq, inertia_eq, hc]
+  unfold transform
+  simp only [List.map_map, Function.comp_def, ← R_sub R hR.add hR.smul, R_norm2 R hR.dot]
+
+theorem inertia_perm (g g' : AGroup ℝ) (h : g.Perm g') : inertia g = inertia g' := by
+  rw [inertia_eq, inertia_eq, cog_perm g g' h, (h.map _).sum_eq]
+
+theorem inertiaZ_translation (g : AGroup ℝ) (axis v : V3 ℝ) (hg : g ≠ []) :
+    inertiaZ (translate g v) axis = inertiaZ g axis := by
+  rw [inertiaZ_eq, inertiaZ_eq, cog_translate g v hg]
+  unfold translate
+  simp only [List.map_map, Function.comp_def, sub_add_add]
+
+theorem inertiaZ_rotation (R : V3 ℝ → V3 ℝ) (hR : Isometry R) (g : AGroup ℝ) (axis : V3 ℝ) :
+    inertiaZ (transform R g) (R axis) = inertiaZ g axis := by
+  have hc : cog (transform R g) = R (cog g) := cog_map_R R hR.add hR.smul g
+  rw [inertiaZ_eq, inertiaZ_eq, hc]
+  unfold transform
+  simp only [List.map_map, Function.comp_def, ← R_sub R hR.add hR.smul, R_unit R hR.smul hR.dot, hR.dot]
+
+private theorem reducedDist2_translate (p : SwParams ℝ) (a b : Atom ℝ) (v : V3 ℝ) :
+    reducedDist2 p { a with r := V3.add a.r v } { b with r := V3.add b.r v } = reducedDist2 p a b := by
+  unfold reducedDist2
+  simp only [sub_add_add]
+
+/-- the coordination number depends on the pair distances only -/
+theorem coordNum_translation (g1 g2 : AGroup ℝ) (p : SwParams ℝ) (v : V3 ℝ) :
+    coordNum (translate g1 v) (translate g2 v) p = coordNum g1 g2 p := by
+  rw [coordNum_eq, coordNum_eq]
+  unfold translate
+  simp only [List.map_map, Function.comp_def, reducedDist2_translate]
+
+theorem coordNum_rotation (R : V3 ℝ → V3 ℝ) (hR : Isometry R) (g1 g2 : AGroup ℝ) (p : SwParams ℝ) (hr0 : p.r0 ≠ 0) :
+    coordNum (transform R g1) (transform R g2) p = coordNum g1 g2 p := by
+  have _ := hr0  -- not needed at ℝ: `x / 0 = 0`, and `(d/r0)·(d/r0) = d·d/(r0·r0)` holds for every `r0`
+  rw [coordNum_eq, coordNum_eq]
+  unfold transform
+  simp only [List.map_map, Function.comp_def, reducedDist2_eq, ← R_sub R hR.add hR.smul, R_norm2 R hR.dot]
+
+theorem coordNum_perm (g1 g1' g2 g2' : AGroup ℝ) (p : SwParams ℝ) (h1 : g1.Perm g1') (h2 : g2.Perm g2') :
+    coordNum g1 g2 p = coordNum g1' g2' p := by
+  rw [coordNum_eq, coordNum_eq]
+  exact sum_sum_perm _ g1 g1' g2 g2' h1 h2
+
+theorem distanceInv_translation (g1 g2 : AGroup ℝ) (n : Nat) (v : V3 ℝ) :
+    distanceInv (translate g1 v) (translate g2 v) n = distanceInv g1 g2 n := by
+  rw [distanceInv_eq, distanceInv_eq]
+  unfold translate
+  simp only [List.map_map, Function.comp_def, sub_add_add, List.length_map]
+
+theorem distanceInv_rotation (R : V3 ℝ → V3 ℝ) (hR : Isometry R) (g1 g2 : AGroup ℝ) (n : Nat) :
+    distanceInv (transform R g1) (transform R g2) n = distanceInv g1 g2 n := by
+  rw [distanceInv_eq, distanceInv_eq]
+  unfold transform
+  simp only [List.map_map, Function.comp_def, List.length_map, ← R_sub R hR.add hR.smul, R_norm2 R hR.dot]
+
+theorem distanceInv_perm (g1 g1' g2 g2' : AGroup ℝ) (n : Nat) (h1 : g1.Perm g1') (h2 : g2.Perm g2') :
+    distanceInv g1 g2 n = distanceInv g1' g2' n := by
+  rw [distanceInv_eq, distanceInv_eq, h1.length_eq, h2.length_eq,
+    sum_sum_perm (fun a b => invPow (V3.norm2 (V3.sub b.r a.r)) (n / 2)) g1 g1' g2 g2' h1 h2]
+
 end Cv.C02
